@@ -296,6 +296,11 @@ def group_digest(group):
     return tuple(item_digest(x) for x in group)
 
 
+def size_with_default(group, extra=None):
+    """A summary function with an OPTIONAL second parameter (like `lambda g, k=k: ...`): it is called with the group only."""
+    return (len(group), repr(extra))
+
+
 def check_agg(case, rec):
     items, by = case["items"], list(case["by"])
     ik = R.lkey(items)
@@ -309,6 +314,7 @@ def check_agg(case, rec):
         g = dict(zip(by, kv))
         g["n"] = len(idx)
         g["ids"] = tuple(item_digest(items[i]) for i in idx)
+        g["sd"] = (len(idx), "None")
         want.append(g)
     if case.get("edit_between"):
         # the grouped list was aggregated, then its first item was moved (in place) into the last item's group:
@@ -331,11 +337,12 @@ def check_agg(case, rec):
             w = dict(zip(by, kv))
             w["n"] = len(idx)
             w["ids"] = tuple(item_digest(items[i]) for i in idx)
+            w["sd"] = (len(idx), "None")
             want.append(w)
     a = lod_via(items, case.get("via")) if not case.get("edit_between") else a
     try:
         if case.get("edit_between"):
-            out = g.aggregate(n=len, ids=group_digest)
+            out = g.aggregate(n=len, ids=group_digest, sd=size_with_default)
         if case.get("regroup"):
             # the same list object was grouped (by other keys) and aggregated before
             a.group_by(*case["regroup"]).aggregate(n=len)
@@ -343,7 +350,7 @@ def check_agg(case, rec):
             g = a.group_by(*by)
             if case.get("twice"):
                 g.aggregate(n=len)   # the grouped list has been aggregated before: it is still grouped
-            out = g.aggregate(n=len, ids=group_digest)
+            out = g.aggregate(n=len, ids=group_digest, sd=size_with_default)
     except Exception as e:
         rec.violation("aggregate", "raised", case, f"{type(e).__name__}: {e}; items={items} by={by}")
         return
@@ -358,7 +365,7 @@ def check_agg(case, rec):
         except KeyError:
             got_groups = None
         want_groups = [kv for kv, _ in groups]
-        if got_groups is None or any(set(x) != set(by) | {"n", "ids"} for x in out):
+        if got_groups is None or any(set(x) != set(by) | {"n", "ids", "sd"} for x in out):
             clause = "item-shape"
         elif sorted(map(R.none_last, got_groups)) != sorted(map(R.none_last, want_groups)):
             clause = "groups"
